@@ -32,6 +32,11 @@ def scenarios():
     add('insane-input-save-temps', 'a.c', 'InsaneTestCaseError', predicate='exit 1', cfg={'save_temps': True})
     add('insane-input-script-without-shebang', 'a.c', 'InsaneTestCaseError', predicate='exit 1', script_shebang='')
     add('insane-input-script-interpreter-missing', 'test.sh', 'InsaneTestCaseError', predicate='exit 1', script_shebang='#!/nonexistent/interpreter')
+    # several test cases: every one of them is named by the message, which must still print
+    add('insane-input-two-files', 'a.c', 'InsaneTestCaseError', predicate='exit 1', tree={'a.c': {'text': 'keep1\n'}, 'sub/b.c': {'text': 'x\n'}, 'other.txt': {'text': 'o'}}, test_cases=['a.c', 'sub/b.c'])
+    add('insane-input-three-files', 'sub/b.c', 'InsaneTestCaseError', predicate='grep -q nothing a.c', tree={'a.c': {'text': 'keep1\n'}, 'sub/b.c': {'text': 'x\n'}, 'c.h': {'text': 'y\n'}}, test_cases=['c.h', 'a.c', 'sub/b.c'])
+    add('second-test-case-absolute', '/etc/hostname', 'AbsolutePathTestCaseError', test_cases=['a.c', '/etc/hostname'])
+    add('second-test-case-dotdot', '../x.c', 'ParentDirTestCaseError', tree={'a.c': {'text': 'k'}, '../x.c': {'text': 'a\nb\n'}}, test_cases=['a.c', '../x.c'])
     # test-case names with characters that mean something to str.format / % / the shell: the message must still print and name them
     for odd in ('a{0}.c', '{x}.c', 'a}.c', 'b%s.c', 'sub dir/c d.c', "q'uote.c"):
         add(f'insane-input-odd-name:{odd}', odd, 'InsaneTestCaseError', predicate='exit 1', tree={odd: {'text': 'keep1\n'}, 'other.txt': {'text': 'o'}}, test_cases=[odd])
